@@ -96,3 +96,25 @@ Proof. intros H E thetas. apply (is_unitary_sound hz _ (aenv_good hz D thetas H)
 Theorem meqb_forall hz D X Y : (0 < hz)%Z -> meqb hz X Y = true ->
   forall thetas : list R, map (map (peval (aenv hz D thetas))) X = map (map (peval (aenv hz D thetas))) Y.
 Proof. intros H E thetas. apply (meqb_sound hz _ (aenv_good hz D thetas H)). exact E. Qed.
+
+(* ---- branch probabilities ---- *)
+Definition c_norm2 (v : cvec) : C := fold_right (fun x acc => Cplus (Cmult (Cconj x) x) acc) (RtoC 0) v.
+Definition c_norms_total (vs : list cvec) : C := fold_right (fun v acc => Cplus (c_norm2 v) acc) (RtoC 0) vs.
+
+Lemma norm2_sound hz rho (G : good_env hz rho) v : peval rho (norm2 hz v) = c_norm2 (map (peval rho) v).
+Proof.
+  induction v as [|x v IH]; [reflexivity|]. cbn [norm2 c_norm2 map fold_right].
+  rewrite (peval_nadd hz rho G), (peval_nmul hz rho G), (peval_pconj hz rho G). fold (norm2 hz v). rewrite IH. reflexivity.
+Qed.
+Lemma norms_total_sound hz rho (G : good_env hz rho) vs :
+  peval rho (norms_total hz vs) = c_norms_total (map (map (peval rho)) vs).
+Proof.
+  induction vs as [|v vs IH]; [reflexivity|]. cbn [norms_total c_norms_total map fold_right].
+  rewrite (peval_nadd hz rho G), (norm2_sound hz rho G). fold (norms_total hz vs). rewrite IH. reflexivity.
+Qed.
+Theorem probs_total_one_sound hz rho (G : good_env hz rho) vs : probs_total_one hz vs = true ->
+  c_norms_total (map (map (peval rho)) vs) = RtoC 1.
+Proof.
+  unfold probs_total_one. intros H. apply (peqb_sound hz rho G) in H.
+  rewrite (norms_total_sound hz rho G) in H. rewrite H. apply (peval_pone rho).
+Qed.
